@@ -8,7 +8,8 @@ Cases == ndJsonDeserialize(IOEnv.RF_CASES)
 BadOf(i) == LET cs == Cases[i]
                 su == In[cs.s]
             IN  { r \in 1..Len(su.reqs) : ~Ok(su.cfgs[cs.c], su.reqs[r], cs.outs[r]) }
-Bad == UNION { { [i |-> i, r |-> r] : r \in BadOf(i) } : i \in 1..Len(Cases) }
+Bad == UNION { { [i |-> i, r |-> r, why |-> Why(In[Cases[i].s].cfgs[Cases[i].c], In[Cases[i].s].reqs[r], Cases[i].outs[r])] :
+                   r \in BadOf(i) } : i \in 1..Len(Cases) }
 ASSUME TablesSane
 ASSUME \A i \in 1..Len(Cases) : Len(Cases[i].outs) = Len(In[Cases[i].s].reqs)
 ASSUME JsonSerialize(IOEnv.RF_VERDICT,
